@@ -5,7 +5,7 @@
    [min_leaf_depth], [max_leaf_depth]) are the recursive ones of Model/TreeDef.v.  All statements are for
    every tree, with no bound on size or depth; [ids] stands for Python object identity. *)
 From Coq Require Import List Arith Bool ZArith Permutation.
-From OV Require Import Model.TreeDef Model.TreeAlgo Model.TreeAlgoProofs Model.TreeAlgoDescr Model.TreeAlgoDescrProofs.
+From OV Require Import Model.TreeDef Model.TreeAlgo Model.TreeAlgoProofs Model.TreeMeasures Model.TreeAlgoDescr Model.TreeAlgoDescrProofs.
 From OV Require Gen.TreeAlgoDescr.
 From OV Require Model.TreeHeap Model.TreeHeapBase.
 From OV Require Import Model.TreeHeapAlgoLink.
@@ -15,6 +15,19 @@ Import ListNotations.
 Theorem C11_measurements : forall t,
   props_bfs t = Some (size t, leaves t, Z.of_nat (min_leaf_depth t), Z.of_nat (max_leaf_depth t)).
 Proof. exact props_bfs_correct. Qed.
+
+(* the four numbers are mutually consistent, for every tree (unary nodes allowed):
+   1 <= n_leaves <= n_nodes, 0 <= min_depth <= max_depth < n_nodes, n_leaves <= 2^max_depth, n_nodes < 2^(max_depth+1) *)
+Theorem C11_measurements_coherent : forall t n lv mn mx, props_bfs t = Some (n, lv, mn, mx) ->
+  1 <= lv /\ lv <= n /\ (0 <= mn <= mx)%Z /\ (mx < Z.of_nat n)%Z /\
+  lv <= 2 ^ Z.to_nat mx /\ S n <= 2 ^ S (Z.to_nat mx).
+Proof. exact props_bfs_coherent. Qed.
+
+Theorem C11_single_node_iff_leaf : forall t, size t = 1 <-> is_leaf t = true.
+Proof. exact size_one_iff_leaf. Qed.
+
+Theorem C11_depth_zero_iff_leaf : forall t, max_leaf_depth t = 0 <-> is_leaf t = true.
+Proof. exact max_depth_zero_iff_leaf. Qed.
 
 (* ---- pre_order: explicit stack = root-left-right *)
 Theorem C11_pre_order : forall t, pre_stack t = Some (pre_rec t).
